@@ -246,9 +246,8 @@ def sigma_filter(filename, region, step_size, box_size, shape, domask,
     logging.debug(" ... done writing bkg")
 
     # wait for all to complete
-    i = barrier.wait()
-    if i == 0:
-        barrier.reset()
+    # (a Barrier is cyclic: it is ready for re-use as soon as all parties pass)
+    barrier.wait()
 
     logging.debug("background subtraction")
     data[0 + ymin - data_row_min: data.shape[0] -
@@ -275,9 +274,7 @@ def sigma_filter(filename, region, step_size, box_size, shape, domask,
 
     if domask:
         # wait for all to complete
-        i = barrier.wait()
-        if i == 0:
-            barrier.reset()
+        barrier.wait()
 
         logging.debug("applying mask")
         mask = ~np.isfinite(
